@@ -33,11 +33,24 @@
 (* instant now = until the old count may be still remembered or already    *)
 (* forgotten (an open or closed interval end cannot be told apart by a     *)
 (* sentence about continuous time); see Bases.                             *)
+(*                                                                         *)
+(* "From one address": a login request has two kinds of address -- the     *)
+(* PEER it really comes from (the connection's remote address) and an      *)
+(* address it may merely CLAIM (X-Real-IP, CF-Connecting-IP,               *)
+(* True-Client-IP, X-Forwarded-For).  Anybody can write anything into      *)
+(* those headers, so the address of the statement is the peer; the claim   *)
+(* is part of the request vocabulary precisely so that the model can say   *)
+(* it is ignored: whatever a request claims -- nothing, the address of     *)
+(* another client, an address inside the configured trusted-proxy set, an  *)
+(* address outside it -- it spends the budget of its peer and only of its  *)
+(* peer.  (Peers that are themselves configured trusted proxies are not    *)
+(* generated: for them the statement does not say whose address counts.)   *)
 (***************************************************************************)
 EXTENDS Integers, FiniteSets, Sequences, TLC, Json
 
 CONSTANTS
-    Addrs,           \* addresses (strings)
+    Addrs,           \* peer addresses (strings); none of them is a trusted proxy
+    Claims,          \* what a request may claim about its origin (strings, see above)
     MaxAttemptsSet,  \* values of the configured attempt limit to explore
     BlockDurSet,     \* values of the configured block duration to explore
     Window,          \* the "minute", in the time unit of the model
@@ -83,7 +96,9 @@ AttemptOutcomes(r, now, n, b, ok) ==
 \* The same for the whole table (address -> record): an attempt touches the
 \* record of its own address only; the passage of time forgets what can no
 \* longer matter.
-TableOutcomes(tbl, a, ok, now, n, b) ==
+\* `a` is the peer, `claim` what the request says about its origin: the
+\* outcome is a function of the peer's record alone, and no other record moves.
+TableOutcomes(tbl, a, claim, ok, now, n, b) ==
     {[tbl |-> [tbl EXCEPT ![a] = o.rec], res |-> o.res, eval |-> o.eval, base |-> o.base] :
         o \in AttemptOutcomes(tbl[a], now, n, b, ok)}
 
@@ -110,7 +125,7 @@ VARIABLES
     hit,       \* ghost: address -> instant of the latest failure that reached the limit, -1 if none since a success
     streak,    \* ghost: address -> failed logins since the last success (never forgotten by time; capped at n)
     burst,     \* ghost: address -> evaluated failures in the current instant since the last success / forgetting
-    out        \* last step: [act, a, ok, res]
+    out        \* last step: [act, a, ok, res] (the claim is deliberately not remembered)
 
 vars == <<n, b, rec, clock, evals, hit, streak, burst, out>>
 
@@ -139,8 +154,8 @@ Init ==
     /\ burst = [a \in Addrs |-> 0]
     /\ out = NoOut
 
-Attempt(a, ok) ==
-    \E o \in TableOutcomes(rec, a, ok, clock, n, b) :
+Attempt(a, claim, ok) ==
+    \E o \in TableOutcomes(rec, a, claim, ok, clock, n, b) :
         /\ rec' = o.tbl
         /\ evals' = IF o.eval THEN evals + 1 ELSE evals
         /\ hit' = [hit EXCEPT ![a] = IF o.res = "ok" THEN -1
@@ -153,7 +168,7 @@ Attempt(a, ok) ==
                                           ELSE @]
         /\ out' = [act |-> "attempt", a |-> a, ok |-> ok, res |-> o.res]
         /\ UNCHANGED <<n, b, clock>>
-        /\ Emit([k |-> "attempt", a |-> a, ok |-> ok, d |-> 0], Proj', o.res)
+        /\ Emit([k |-> "attempt", a |-> a, c |-> claim, ok |-> ok, d |-> 0], Proj', o.res)
 
 Tick(d) ==
     /\ clock' = clock + d
@@ -161,10 +176,10 @@ Tick(d) ==
     /\ burst' = [a \in Addrs |-> 0]
     /\ out' = [act |-> "tick", a |-> "", ok |-> FALSE, res |-> "none"]
     /\ UNCHANGED <<n, b, evals, hit, streak>>
-    /\ Emit([k |-> "tick", a |-> "", ok |-> FALSE, d |-> d], Proj', "none")
+    /\ Emit([k |-> "tick", a |-> "", c |-> "", ok |-> FALSE, d |-> d], Proj', "none")
 
 Next ==
-    \/ \E a \in Addrs, ok \in BOOLEAN : Attempt(a, ok)
+    \/ \E a \in Addrs, claim \in Claims, ok \in BOOLEAN : Attempt(a, claim, ok)
     \/ \E d \in 1..MaxTick : Tick(d)
 
 Spec == Init /\ [][Next]_vars
@@ -206,6 +221,17 @@ NoBlockBeforeLimit == out.res = "blocked" => streak[out.a] >= n
 \* N failures at one instant are certainly "within a minute": the (N+1)-th
 \* evaluated failure of an instant cannot exist.
 LimitIsSharp == \A a \in Addrs : burst[a] <= n
+
+\* The claim buys nothing: the reply to an attempt is determined by the peer's
+\* own history (blocked iff the peer is blocked), whatever was claimed before or
+\* is claimed now -- in particular rotating claims never yields a fresh budget
+\* (NoBlockBeforeLimit / LimitIsSharp count per peer), and claiming another
+\* client's address neither spends nor clears that client's count
+\* (OthersUntouched).
+ClaimIsIgnored ==
+    [][\A a \in Addrs : IsAttemptOn(a) =>
+          \A c2 \in Claims :
+              \E o \in TableOutcomes(rec, a, c2, out'.ok, clock, n, b) : o.res = out'.res /\ o.tbl = rec']_vars
 
 \* One address never influences another one.
 OthersUntouched ==
